@@ -48,6 +48,10 @@ def main():
     slot = args[args.index('--slot') + 1] if '--slot' in args else name
     wt = '/tmp/sv-' + slot
     tgt = '/tmp/sv-target-' + slot
+    # one user per slot at a time (several agents may pick the same slot)
+    import fcntl
+    _slot_lock = open('/tmp/sv-lock-' + slot, 'w')
+    fcntl.flock(_slot_lock, fcntl.LOCK_EX)
     conf = dict(when=time.strftime('%Y-%m-%d %H:%M'), repo_head=sh(['git', '-C', '/repo', 'rev-parse', '--short', 'HEAD'])[1].strip())
     sh(['git', '-C', '/repo', 'worktree', 'remove', '--force', wt])
     rc, out = sh(['git', '-C', '/repo', 'worktree', 'add', '--detach', wt, 'HEAD'])
